@@ -468,7 +468,8 @@ def check_usage_errors(ctx: Ctx) -> None:
                         continue
                     # sources of the condition that *directly* controls the raise
                     gs: set[str] = set()
-                    for bnode, _lab in flow.control_deps(r):
+                    # (all of them: `if a and b: raise` may be written `if a:` / `if b: raise`)
+                    for bnode, _lab in set(flow.control_deps(r)) | {(b_, l_) for b_, l_ in all_guards(prog, rfs, r) if b_.kind == "test"}:
                         for ex in flow.node_exprs(bnode):
                             gs |= prog.slice(rfs, ex, bnode).params()
                     # the pre-check must lie on the way to the loop (it can reach the loop head's predecessors)
